@@ -59,7 +59,7 @@ class Prop:
             'get_itdma_comm_state (model vs pyais, and pyais vs an independent div/mod reading of the ITU '
             'bit ranges); get_communication_state / is_sotdma / is_itdma for every radio-carrying type on a '
             'stratified sample (quick) or on all 2^19 (types 1-4, 11) and 2^20 (types 9, 18, 26) values '
-            '(thorough); a case is non-trivial when the implementation returns a state (no exception)')
+            '(thorough); a case is non-trivial when the implementation returns a state (no exception) ; every state asked for twice with the first answer taken apart in place; a message whose radio value is changed after it reported its state')
     assumptions = ['radio values are the non-negative integers a 19/20-bit field can hold']
 
     def check_one(self, ctx, kind, args, out):
